@@ -1,7 +1,7 @@
 CONSTANTS
   Cfgs <- C01Cfgs
   Apis = {"query", "search", "gai"}
-  Nests = {"none", "cancel", "query"}
+  Nests = {"none", "cancel", "query", "setservers"}
   Kinds = {"ok", "nx", "servfail", "stale_ok"}
   Faults = {"sendto"}
   Extras = {"cancel", "timeout"}
